@@ -324,3 +324,14 @@ Proof.
     specialize (Hmin _ He' Hl). unfold deform; cbn [nq].
     rewrite <- Hinj, wtn_apply by assumption. exact Hmin.
 Qed.
+
+(** ** refutation: a bounded logical operator lighter than d shows that d is NOT the distance
+    (used with witnesses found by an untrusted integer-programming search on instances that are out
+    of reach of the exhaustive search) *)
+Definition lighter_logical (c : code) (d : nat) (w : bsf) : bool :=
+  bbounded (nn c) w && is_logical c w && Nat.ltb (wtn (nq c) w) d.
+Theorem lighter_logical_refutes c d w : lighter_logical c d w = true -> ~ Distance c d.
+Proof.
+  unfold lighter_logical. rewrite !andb_true_iff. intros [[Hb Hl] Hw] [_ Hmin].
+  apply Nat.ltb_lt in Hw. specialize (Hmin w Hb Hl). lia.
+Qed.
